@@ -665,7 +665,11 @@ func (p *Parent) finish(start time.Time) int {
 		os.WriteFile(filepath.Join(dir, "replay.json"), rj, 0o644)
 		os.WriteFile(filepath.Join(dir, "detail.txt"), []byte(v.Detail), 0o644)
 		for name, content := range v.Files {
-			os.WriteFile(filepath.Join(dir, filepath.Base(name)), []byte(content), 0o644)
+			base := filepath.Base(name)
+			if strings.HasSuffix(base, ".go") || base == "go.mod" {
+				base += ".txt" // the replay directory lies inside the verif module: keep it free of Go sources
+			}
+			os.WriteFile(filepath.Join(dir, base), []byte(content), 0o644)
 		}
 		fmt.Printf("VIOLATION property=%s replay=%s\n", ck.ID, dir)
 		fmt.Printf("  signature: %s (%d occurrence(s))\n  %s\n", sig, len(vs), firstLines(v.Detail, 12))
